@@ -209,9 +209,24 @@ def save_performance_midi(
             track_events[track][t_on].append(
                 Message("note_on", note=n["midi_pitch"], velocity=vel, channel=ch)
             )
-            track_events[track][t_off].append(
-                Message("note_off", note=n["midi_pitch"], velocity=0, channel=ch)
+            note_off = Message(
+                "note_off", note=n["midi_pitch"], velocity=0, channel=ch
             )
+            if t_off > t_on:
+                # the end of a note that began earlier goes before the events
+                # of its tick (a note of the same pitch may begin there,
+                # whatever the order of the notes in the list)
+                first_on = next(
+                    (
+                        k
+                        for k, m in enumerate(track_events[track][t_off])
+                        if m.type != "note_off"
+                    ),
+                    len(track_events[track][t_off]),
+                )
+                track_events[track][t_off].insert(first_on, note_off)
+            else:
+                track_events[track][t_off].append(note_off)
 
         for p in performed_part.programs:
             track = p.get("track", 0)
